@@ -106,6 +106,40 @@ def run(run):
             texts.append(mutate(rng, rng.choice(pages))); klass.append("mutant")
     for t in ladders():
         texts.append(t); klass.append("ladder")
+    # mostly-valid structured constructs: calls with empty / numeric-named / repeated arguments, links and external links with
+    # inline markup in their target, the same inside table cells and list items
+    import c19
+
+    def messy(rng):
+        # a closed link / external link / call whose inside mixes inline openers with cell separators
+        inner = "".join(rng.choice(["t", " ", "''", "'''", "||", "|", "!!", "{{a}}", "[[l]]", "''i''", " ''", "'' "])
+                        for _ in range(rng.randint(1, 4)))
+        k = rng.random()
+        if k < 0.5:
+            return "[http://x.y/" + rng.choice(["p", "''i''", "'''b'''", "p|{{a}}", "{{a}}", ""]) + rng.choice([" ", ""]) + inner + "]"
+        if k < 0.75:
+            return "[[Target|" + inner + "]]"
+        return "{{a|" + inner + "}}"
+
+    for _ in range(1500 if quick else 30000):
+        parts = [messy(rng) if rng.random() < 0.35 else c19.gen_call(rng) for _ in range(rng.randint(1, 3))]
+        if rng.random() < 0.4:
+            opener = rng.choice(["[http://x.y/''i'' ''", "[http://x.y/{{a}} '''", "[http://x.y ''t", "[[a|''", "{{a|''", "''", "'''",
+                                 "[http://x.y/'''b''' ''", "[http://x.y/p|{{a}} ''", "[http://x.y/''i''", "<b>", "[[a|'''b''' ''"])
+            parts.insert(len(parts) if rng.random() < 0.6 else rng.randrange(len(parts) + 1), opener)
+        body = " ".join(parts)
+        shape = rng.random()
+        if shape < 0.3:
+            t = "{|\n| " + body + rng.choice([" || c", "|| c", "||c", "\n| c", "|c", "!!c"]) + "\n|}"
+        elif shape < 0.45:
+            t = "{|\n! " + body + rng.choice(["\n| d ", "!! d ", "!!d", " !! d"]) + rng.choice(["||", "|"]) + " e\n|}"
+        elif shape < 0.6:
+            t = "* " + body + "\n** x"
+        else:
+            t = body
+        texts.append(t); klass.append("calls")
+    for t in ["{{#switch:|1=z}}", "{{#if:|1=z}}", "{{tpl||1=z}}", "{|\n| [http://x.y/''x'' ''|| c]\n|}"]:
+        texts.append(t); klass.append("corpus")
     for t in ["==<pre>x==\n", "== a <pre> b ==\ntext", "==<pre>==\n</pre>", "=== x<pre>y</pre> ===\n", "==<nowiki>x</nowiki>==\n",
               "== {{a|x}} ==\n", "==[[a]]==\n* i", "==\n", "== ==\n", "=====\n"]:
         texts.append(t); klass.append("corpus")
